@@ -110,3 +110,32 @@ Proof.
   - eexists. split; [vm_compute; reflexivity|]. split; [vm_compute; reflexivity|]. split; [reflexivity | vm_compute; discriminate].
   - split; [reflexivity | vm_compute; reflexivity].
 Qed.
+
+(* Concatenation along time.  ANY split of the time axis into adjacent pieces x[..., c(i):c(i+1)] (any number of cut
+   points 0 <= c1 <= ... <= cm = n_time, empty pieces allowed; the pieces are well-formed, so this composes with
+   any further slicing) concatenates back to the original array with its annotations ... *)
+Theorem C11_concat_restores : forall x cuts,
+  wf x -> cuts <> [] -> cuts_ok 0 cuts (n_time x) ->
+  exists ps, all_arrays (map (getitem x) (piece_indices 0 cuts)) = inr ps /\ Forall wf ps /\
+             concat_pd DTime ps = RArr x.
+Proof. exact concat_restores. Qed.
+Print Assumptions C11_concat_restores.
+
+(* ... and whatever concat accepts is consistent: pieces with a gap or an overlap, another rate, other channel
+   labels, other metadata or another dimensionality are rejected (the result is an error value) *)
+Theorem C11_concat_rejects : forall ps r,
+  Forall wf ps -> concat_pd DTime ps = RArr r ->
+  exists base rest, ps = base :: rest /\ consistent base rest /\
+    s0 r = s0 base /\ fsn r = fsn base /\ fsd r = fsd base /\ chan r = chan base /\ meta r = meta base.
+Proof. exact concat_rejects. Qed.
+Print Assumptions C11_concat_rejects.
+
+Example C11_concat_ex :
+  let x := mk [2; 5] (-3) 1000 1 (LMany [70; 71]) (LOne 90) in
+  wf x /\ cuts_ok 0 [2; 2; 5] (n_time x) /\
+  (exists p q, getitem x (time_piece 0 2) = RArr p /\ getitem x (time_piece 3 5) = RArr q /\
+               concat_pd DTime [p; q] = RErr EValue).
+Proof.
+  cbn zeta. split; [unfold wf; cbn; repeat split; try lia; repeat constructor|].
+  split; [cbn; lia|]. eexists. eexists. split; [vm_compute; reflexivity|]. split; vm_compute; reflexivity.
+Qed.
